@@ -25,6 +25,9 @@ type RdbReader struct {
 	size     int64
 	wait     usync.WaitCloser
 	observer atomic.Pointer[Observer]
+	// writting : the file was still being written (.rdb.tmp) when it was opened;
+	// only then more bytes can follow an EOF
+	writting bool
 }
 
 func NewRdbReaderFromFile(w io.WriteCloser, rdbFilePath string, verifyCrc bool) (*RdbReader, error) {
@@ -58,6 +61,7 @@ func newRdbReader(w io.WriteCloser, rdbFilePath string, offset int64, rdbSize in
 		writer:   w,
 		size:     rdbSize,
 		offset:   offset,
+		writting: isWritting,
 	}
 	r.wait = usync.NewWaitCloser(func(err error) {
 		r.close()
@@ -171,7 +175,8 @@ func (r *RdbReader) pump() (err error) {
 			p = p[:rdbSize]
 		}
 		n, err = r.read(p)
-		for err == io.EOF && !r.wait.IsClosed() { // EOF means n is zero
+		// a finished snapshot that ends before its size is incomplete, not "not yet written"
+		for err == io.EOF && r.writting && !r.wait.IsClosed() { // EOF means n is zero
 			time.Sleep(time.Millisecond * 10)
 			n, err = r.read(p)
 		}
